@@ -88,7 +88,7 @@ def config_strategy() -> Any:
         pauses = []
         if faults != "none" and draw(st.booleans()):  # flow control: the transport pauses the protocol's writing for a while
             pauses = [[draw(st.sampled_from((0.02, 0.3, 1.0, 3.5, 8.0, 31.0))), draw(st.sampled_from((0.2, 1.0, 5.0)))] for _ in range(draw(st.integers(1, 3)))]
-        return {"config": cfg, "learn": draw(st.sampled_from(("schema", "heard"))), "mask": mask, "faults": faults, "pauses": pauses, "rnd": draw(st.integers(0, 999))}
+        return {"config": cfg, "learn": draw(st.sampled_from(("schema", "heard", "heard-during-start"))), "mask": mask, "faults": faults, "pauses": pauses, "rnd": draw(st.integers(0, 999))}
 
     return build
 
@@ -123,6 +123,14 @@ class Controller:
             self.loop.call_later(period, cycle)
 
         self.loop.call_later(1.0, cycle)
+
+    def sync_once(self) -> None:
+        """One sync-cycle trio right now (used to be on the air while the gateway is still starting)."""
+        zs = sorted(self.cfg["zones"])
+        self.eth.inject(f" I --- {CTL} --:------ {CTL} 1F09 003 FF0739")
+        if zs:
+            pl = "".join(f"{z}0834" for z in zs)
+            self.eth.inject(f" I --- {CTL} --:------ {CTL} 2309 {len(pl) // 2:03d} {pl}")
 
     def devices_for(self, zz: str, role: str) -> list[str] | None:
         """Devices the controller reports for RQ|000C zz/role; None = not a role this model knows."""
@@ -260,12 +268,18 @@ async def _run(loop: Any, case: dict) -> dict:
     eth = stack.Ether(loop)
     ctl = Controller(eth, case)
     schema = {CTL: {}} if case["learn"] == "schema" else {}
+    if case["learn"] == "heard-during-start":
+        # the controller is already on the air while Gateway.start() is still connecting: its sync cycle is first heard between the
+        # moment the transport attaches and the moment start() returns (frames sent before the port is attached are simply not heard)
+        for d in (0.001, 0.004, 0.012, 0.03, 0.06, 0.11, 0.2, 0.35, 0.6):
+            loop.call_later(d, ctl.sync_once)
     gwy, port = await stack.make_gateway(eth, gwy_id=GWY, config={"disable_discovery": False, "enable_eavesdrop": False}, schema=schema)
+    obs_started_with_tcs = gwy.tcs is not None
     ctl.start_cycle()
     for at, dur in case.get("pauses", []):
         loop.call_later(at, gwy._protocol.pause_writing)
         loop.call_later(at + dur, gwy._protocol.resume_writing)
-    obs: dict[str, Any] = {"samples": []}
+    obs: dict[str, Any] = {"samples": [], "tcs_at_start": obs_started_with_tcs}
     # a failed probe (lost, or timed out behind a congested send queue) is repeated at the next polling round, 24 h later
     # (and the repeat can itself time out in the burst of polls that opens every round: seen once in 14k cases - round 3 then)
     horizon = case.get("horizon") or {"none": 50, "light": 74, "heavy": 98}[case["faults"]] * 3600
@@ -384,7 +398,7 @@ def explore(job: dict) -> dict:
         classes = {z["class"] for z in cfg["zones"].values()}
         nt = len(classes) >= 2 or bool(cfg["dhw"]) or obs["n_lost"] > 0 or bool(case.get("pauses"))
         col.case(nt=jdump(case) if nt else None,
-                 classes=["cfg", f"faults:{case['faults']}", "paused-writing" if case.get("pauses") else "never-paused", "converged-in-first-round" if (obs.get("t_converged") or 1e9) <= 3600 else "converged-later" if obs.get("t_converged") else "not-converged", f"learn:{case['learn']}", f"zones:{min(len(cfg['zones']), 12) // 4 * 4}+", "dhw" if cfg["dhw"] else "no-dhw",
+                 classes=["cfg", f"faults:{case['faults']}", "paused-writing" if case.get("pauses") else "never-paused", "converged-in-first-round" if (obs.get("t_converged") or 1e9) <= 3600 else "converged-later" if obs.get("t_converged") else "not-converged", f"learn:{case['learn']}", "controller-known-when-start-returns" if obs.get("tcs_at_start") else "controller-learned-after-start", f"zones:{min(len(cfg['zones']), 12) // 4 * 4}+", "dhw" if cfg["dhw"] else "no-dhw",
                           f"app:{(cfg['appliance_control'] or 'none')[:2]}", "ctl-as-sensor" if any(z["sensor"] == CTL for z in cfg["zones"].values()) else "no-ctl-sensor",
                           "high-zones" if any(int(z, 16) >= 8 for z in cfg["zones"]) else "low-zones-only"],
                  sample={"config": cfg, "learn": case["learn"], "faults": case["faults"], "converged_s": obs.get("t_converged"), "requests": obs["n_requests"],
